@@ -5,6 +5,7 @@
 package zzvrt
 
 import (
+	"sync"
 	"encoding/json"
 	"fmt"
 	"math/big"
@@ -17,6 +18,10 @@ import (
 type Failure struct{ Msg string }
 
 var (
+	mu       sync.Mutex
+	// Concurrent is set by the race replay: the harness runs in several goroutines at once; labels are
+	// then not numbered per occurrence (every goroutine gets the same model value for a label).
+	Concurrent bool
 	model    map[string]interface{}
 	seen     = map[string]int{}
 	Failures []string
@@ -53,6 +58,9 @@ func Reset() {
 }
 
 func key(label string) string {
+	if Concurrent {
+		return label
+	}
 	n := seen[label]
 	seen[label] = n + 1
 	if n == 0 {
@@ -62,6 +70,8 @@ func key(label string) string {
 }
 
 func get(label string) (interface{}, bool) {
+	mu.Lock()
+	defer mu.Unlock()
 	load()
 	v, ok := model[key(label)]
 	return v, ok
@@ -174,11 +184,17 @@ func Assume(c bool) {
 
 func Assert(c bool, msg string) {
 	if !c {
+		mu.Lock()
 		Failures = append(Failures, msg)
+		mu.Unlock()
 	}
 }
 
-func Reach(msg string) { Reached = append(Reached, msg) }
+func Reach(msg string) {
+	mu.Lock()
+	Reached = append(Reached, msg)
+	mu.Unlock()
+}
 
 // FrameBegin / FrameUnchanged: the engine compares all heap cells; natively
 // the harness supplies an observer through SetFrameObserver.
@@ -187,13 +203,13 @@ func SetFrameObserver(f func() string) { frame = f }
 var frameBefore string
 
 func FrameBegin() {
-	if frame != nil {
+	if frame != nil && !Concurrent {
 		frameBefore = frame()
 	}
 }
 
 func FrameUnchanged(msg string) {
-	if frame != nil {
+	if frame != nil && !Concurrent {
 		if now := frame(); now != frameBefore {
 			Failures = append(Failures, msg+": "+frameBefore+" -> "+now)
 		}
@@ -316,7 +332,12 @@ var watched []interface{}
 // FrameWatch registers objects whose complete state (including unexported fields, embedded
 // objects and maps) FrameBegin / FrameUnchanged compare natively. The engine ignores it: it
 // compares every heap cell anyway.
-func FrameWatch(objs ...interface{}) { watched = append(watched, objs...) }
+func FrameWatch(objs ...interface{}) {
+	if Concurrent {
+		return
+	}
+	watched = append(watched, objs...)
+}
 
 // ---------------------------------------------------------------------------
 // text/template reference and abstract readers (C19)
